@@ -236,9 +236,45 @@ Section Stream.
     fmt_d x20 4 (dt_year d) ++ fmt_d x30 2 (dt_month d) ++ fmt_d x30 2 (dt_day d) ++ [x20] ++
     fmt_d x30 2 (dt_hour d) ++ [x3a] ++ fmt_d x30 2 (dt_minute d) ++ [x3a] ++ fmt_d x30 2 (dt_second d).
 
-  (* per-thread cache t_lastSecond / t_time, Logging.cc:38-40 (zero-initialised) *)
+  (* snprintf / Fmt restricted to the conversions %d, %<w>d, %0<w>d (w one digit), every other byte
+     copied: enough for the REGENERATED formats of Logger::Impl::formatTime (Gen_C17.time_format,
+     us_format_zone, us_format_utc; the generator refuses any other conversion) *)
+  Definition with_arg (args : list Z) (k : Z -> list Z -> list byte) : list byte :=
+    match args with a :: r => k a r | [] => [] end.
+  Definition width_of (w : byte) : nat := Z.to_nat (Z_of_byte w - 48).
+  Fixpoint mini_printf (fmt : list byte) (args : list Z) {struct fmt} : list byte :=
+    match fmt with
+    | [] => []
+    | c :: rest =>
+        if Byte.eqb c x25 then
+          match rest with
+          | [] => [c]
+          | f :: rest1 =>
+              if Byte.eqb f x64 then with_arg args (fun a r => convert a ++ mini_printf rest1 r)
+              else match rest1 with
+                   | [] => c :: mini_printf rest args
+                   | g :: rest2 =>
+                       if Byte.eqb g x64 then with_arg args (fun a r => fmt_d x20 (width_of f) a ++ mini_printf rest2 r)
+                       else match rest2 with
+                            | [] => c :: mini_printf rest args
+                            | h :: rest3 =>
+                                if Byte.eqb f x30 && Byte.eqb h x64
+                                then with_arg args (fun a r => fmt_d x30 (width_of g) a ++ mini_printf rest3 r)
+                                else c :: mini_printf rest args
+                            end
+                   end
+          end
+        else c :: mini_printf rest args
+    end.
+
+  (* per-thread cache t_lastSecond / t_time, Logging.cc:38-40 (zero-initialised, char t_time[64]) *)
   Record tls := mkTLS { lastSecond : Z; t_time : list byte }.
-  Definition tls0 : tls := mkTLS 0 (repeat x00 17).
+  Definition tls0 : tls := mkTLS 0 (repeat x00 (Z.to_nat Logging_t_time_size)).
+  Definition dt_fields (d : datetime) : list Z :=
+    [dt_year d; dt_month d; dt_day d; dt_hour d; dt_minute d; dt_second d].
+  (* snprintf(t_time, sizeof(t_time), time_format, year, month, day, hour, minute, second) *)
+  Definition cached_time_text (d : datetime) : list byte :=
+    firstn (Z.to_nat Logging_t_time_size - 1) (mini_printf time_format (dt_fields d)).
 
   (* CurrentThread::cacheTid: "%5d " *)
   Definition tid_text (tid : Z) : list byte := fmt_d x20 5 tid ++ [x20].
@@ -257,12 +293,15 @@ Section Stream.
     lq_msg : list item
   }.
 
-  (* Impl::formatTime: refresh the cached second text, then stream T(t_time,17) and the Fmt *)
+  (* Impl::formatTime: `if (seconds != t_lastSecond)` refresh the cached text of the second; then,
+     per branch of `if (g_logTimeZone.valid())`, Fmt us(<format>, microseconds) and
+     stream_ << T(t_time, <n>) << T(us.data(), <m>) -- formats and lengths regenerated (Gen_C17) *)
   Definition format_time (th : tls) (r : logreq) : tls * list item :=
     let th' := if lq_seconds r =? lastSecond th then th
-               else mkTLS (lq_seconds r) (time_text (lq_dt r)) in
-    let us := [x2e] ++ fmt_d x30 6 (lq_micros r) ++ (if lq_zone r then [x20] else [x5a; x20]) in
-    (th', [IStr (firstn 17 (t_time th')); IStr us]).
+               else mkTLS (lq_seconds r) (cached_time_text (lq_dt r)) in
+    let us := mini_printf (if lq_zone r then us_format_zone else us_format_utc) [lq_micros r] in
+    (th', [IStr (firstn (Z.to_nat (if lq_zone r then time_len_zone else time_len_utc)) (t_time th'));
+           IStr (firstn (Z.to_nat (if lq_zone r then us_len_zone else us_len_utc)) us)]).
 
   Definition prefix_items (th : tls) (r : logreq) : tls * list item :=
     let '(th', tm) := format_time th r in
